@@ -6,23 +6,26 @@ Import ListNotations.
 Open Scope Q_scope.
 
 (** ---- sums ---------------------------------------------------------------------------------- *)
+Lemma qadd_eq x y : qadd x y == x + y.
+Proof. unfold qadd. apply Qred_correct. Qed.
+
 Lemma qsum_map_ext {A} (f g : A -> Q) l : (forall x, f x == g x) -> qsum (map f l) == qsum (map g l).
-Proof. intros H. induction l as [|x l IH]; simpl; [reflexivity|]. now rewrite H, IH. Qed.
+Proof. intros H. induction l as [|x l IH]; simpl; [reflexivity|]. now rewrite !qadd_eq, H, IH. Qed.
 
 Lemma qsum_map2_ext {A B} (f g : A -> B -> Q) l m :
   (forall x y, f x y == g x y) -> qsum (map2 f l m) == qsum (map2 g l m).
 Proof.
-  intros H. revert m. induction l as [|x l IH]; intros [|y m]; simpl; try reflexivity. now rewrite H, IH.
+  intros H. revert m. induction l as [|x l IH]; intros [|y m]; simpl; try reflexivity. now rewrite !qadd_eq, H, IH.
 Qed.
 
 Lemma qsum_map2_nonneg {A B} (f : A -> B -> Q) l m : (forall x y, 0 <= f x y) -> 0 <= qsum (map2 f l m).
 Proof.
-  intros H. revert m. induction l as [|x l IH]; intros [|y m]; simpl; try lra.
+  intros H. revert m. induction l as [|x l IH]; intros [|y m]; simpl; rewrite ?qadd_eq; try lra.
   specialize (H x y). specialize (IH m). lra.
 Qed.
 
 Lemma qsum_map_nonneg {A} (f : A -> Q) l : (forall x, 0 <= f x) -> 0 <= qsum (map f l).
-Proof. intros H. induction l as [|x l IH]; simpl; [lra|]. specialize (H x). lra. Qed.
+Proof. intros H. induction l as [|x l IH]; simpl; [lra|]. rewrite qadd_eq. specialize (H x). lra. Qed.
 
 Lemma qlen_cons {A} (x : A) l : qlen (x :: l) == qlen l + 1.
 Proof.
@@ -60,7 +63,7 @@ Proof. unfold c_weights, t_wsum, sq. reflexivity. Qed.
 Lemma c_wnum_t xs ss :
   qsum (map2 Qmult (c_weights ss) xs) == qsum (map2 (fun x s => x / sq s) xs ss).
 Proof.
-  unfold c_weights. revert ss. induction xs as [|x xs IH]; intros [|s ss]; simpl; try reflexivity.
+  unfold c_weights. revert ss. induction xs as [|x xs IH]; intros [|s ss]; simpl; try reflexivity. rewrite !qadd_eq.
   rewrite IH. unfold sq, Qdiv. ring.
 Qed.
 
@@ -208,7 +211,7 @@ Lemma cs_quadratic mx my xs ys t :
   qsum (map2 (fun x (_ : Q) => sq (x - mx)) xs ys) * t * t - 2 * devxy mx my xs ys * t
   + qsum (map2 (fun (_ : Q) y => sq (y - my)) xs ys).
 Proof.
-  unfold devxy. revert ys. induction xs as [|x xs IH]; intros [|y ys]; simpl; try ring.
+  unfold devxy. revert ys. induction xs as [|x xs IH]; intros [|y ys]; simpl; rewrite ?qadd_eq; try ring.
   rewrite IH. unfold sq. ring.
 Qed.
 
@@ -291,7 +294,7 @@ Proof. apply map_length. Qed.
 
 Lemma qsum_affine k c xs : qsum (affine k c xs) == k * qsum xs + c * qlen xs.
 Proof.
-  induction xs as [|x xs IH]; simpl.
+  induction xs as [|x xs IH]; simpl; rewrite ?qadd_eq.
   - unfold qlen; simpl. ring.
   - rewrite IH, (qlen_cons x xs). ring.
 Qed.
@@ -305,13 +308,13 @@ Qed.
 
 Lemma devxy_affine k c m xs : devxy m (k * m + c) xs (affine k c xs) == k * dev2 m xs.
 Proof.
-  unfold devxy, dev2, affine. induction xs as [|x xs IH]; simpl; [ring|].
+  unfold devxy, dev2, affine. induction xs as [|x xs IH]; simpl; rewrite ?qadd_eq; [ring|].
   rewrite IH. unfold sq. ring.
 Qed.
 
 Lemma dev2_affine k c m xs : dev2 (k * m + c) (affine k c xs) == k * k * dev2 m xs.
 Proof.
-  unfold dev2, affine. induction xs as [|x xs IH]; simpl; [ring|].
+  unfold dev2, affine. induction xs as [|x xs IH]; simpl; rewrite ?qadd_eq; [ring|].
   rewrite IH. unfold sq. ring.
 Qed.
 
